@@ -132,7 +132,13 @@ of peers), snub time-outs and disconnects, with every resolution of the map-iter
 nondeterminism: if the torrent ends up with metadata `b`, then `H b = infoHash`. -/
 theorem adopt_only_if_hash (env : Env Hash) (es : List Event) (b : Bytes) :
     (Adopt.run env State.init es).info = some b → env.H b = env.infoHash :=
-  (inv_run env es State.init (inv_init env)).hash b
+  fun h => ((inv_run env es State.init (inv_init env)).hash b h).1
+
+/-- **private_refused** (with C19). In every history, metadata whose info dictionary carries the
+private flag (or does not parse) is never adopted from peers. -/
+theorem private_refused (env : Env Hash) (es : List Event) (b : Bytes) :
+    (Adopt.run env State.init es).info = some b → env.parseInfo b = some false :=
+  fun h => ((inv_run env es State.init (inv_init env)).hash b h).2
 
 /-- The decision function on its own: it answers `adopt` (or sets `info` while stopping on a
 resume-write error) only if the assembled bytes hash to the info-hash, and never for a private
